@@ -205,24 +205,19 @@ def routePath (p : List Seg) : List Seg := recompose (hops p)
 
 /-! ## Communities -/
 
+/-- routecore's `wellknown!` table: value and the first (printed) name -/
+def wellknownTable : List (Nat × String) := [
+  (0xFFFF0000, "GRACEFUL_SHUTDOWN"), (0xFFFF0001, "ACCEPT_OWN"), (0xFFFF0002, "ROUTE_FILTER_TRANSLATED_v4"),
+  (0xFFFF0003, "ROUTE_FILTER_v4"), (0xFFFF0004, "ROUTE_FILTER_TRANSLATED_v6"), (0xFFFF0005, "ROUTE_FILTER_v6"),
+  (0xFFFF0006, "LLGR_STALE"), (0xFFFF0007, "NO_LLGR"), (0xFFFF0008, "accept-own-nexthop"),
+  (0xFFFF0009, "Standby PE"), (0xFFFFFF01, "NO_EXPORT"), (0xFFFFFF02, "NO_ADVERTISE"),
+  (0xFFFFFF03, "NO_EXPORT_SUBCONFED"), (0xFFFFFF04, "NOPEER"), (0xFFFF029A, "BLACKHOLE")]
+
 /-- `Wellknown` `Display` (first name of the macro table) -/
-def wellknownName (c : Nat) : Option String :=
-  if c = 0xFFFF0000 then some "GRACEFUL_SHUTDOWN"
-  else if c = 0xFFFF0001 then some "ACCEPT_OWN"
-  else if c = 0xFFFF0002 then some "ROUTE_FILTER_TRANSLATED_v4"
-  else if c = 0xFFFF0003 then some "ROUTE_FILTER_v4"
-  else if c = 0xFFFF0004 then some "ROUTE_FILTER_TRANSLATED_v6"
-  else if c = 0xFFFF0005 then some "ROUTE_FILTER_v6"
-  else if c = 0xFFFF0006 then some "LLGR_STALE"
-  else if c = 0xFFFF0007 then some "NO_LLGR"
-  else if c = 0xFFFF0008 then some "accept-own-nexthop"
-  else if c = 0xFFFF0009 then some "Standby PE"
-  else if c = 0xFFFFFF01 then some "NO_EXPORT"
-  else if c = 0xFFFFFF02 then some "NO_ADVERTISE"
-  else if c = 0xFFFFFF03 then some "NO_EXPORT_SUBCONFED"
-  else if c = 0xFFFFFF04 then some "NOPEER"
-  else if c = 0xFFFF029A then some "BLACKHOLE"
-  else none
+def wellknownName (c : Nat) : Option String := (wellknownTable.find? (·.1 == c)).map (·.2)
+
+/-- reading a printed well-known name back -/
+def wellknownValue (n : String) : Option Nat := (wellknownTable.find? (·.2 == n)).map (·.1)
 
 def hexDigit (n : Nat) : Char :=
   if n < 10 then Char.ofNat (48 + n) else Char.ofNat (55 + n)
